@@ -409,3 +409,26 @@ def _stash_bool(self):
 
 
 _oi.BoolStashingValue.__bool__ = _stash_bool
+
+
+# ----------------------------------------------------------------------------------------
+# bytes.ljust / bytes.rjust on symbolic bytes (used by the CER SET OF sort): pad symbolically
+# ----------------------------------------------------------------------------------------
+
+
+def _sym_ljust(self, width, fillbyte=b" "):
+    n = len(self)
+    if width <= n:
+        return self
+    return self + fillbyte * (width - n)
+
+
+def _sym_rjust(self, width, fillbyte=b" "):
+    n = len(self)
+    if width <= n:
+        return self
+    return fillbyte * (width - n) + self
+
+
+bl.BytesLike.ljust = _sym_ljust
+bl.BytesLike.rjust = _sym_rjust
